@@ -17,7 +17,7 @@ pub(crate) fn gg(pattern: &str) -> Value {
     Value::Array(vec![Value::String(s(pattern))])
 }
 pub(crate) fn lw(key: &str, b: bool) -> Value {
-    Value::Array(vec![Value::Object(vec![(s("key"), Value::String(s(key))), (s("value"), Value::Bool(b))])])
+    Value::Array(vec![vobj2("key", Value::String(s(key)), "value", Value::Bool(b))])
 }
 impl Worterbuch {
     /// number of grave-goods patterns this core knows (private `grave_goods()` of worterbuch.rs)
